@@ -189,6 +189,18 @@ def r15_4(ctx):
                                 arg = strip_transparent(x["args"][0])
                                 if (arg.get("k") == "Path" and "is_whitespace" in (arg["res"].get("path") or "")) or (arg.get("k") == "Lit" and arg.get("v") in (" ", "\t")):
                                     ok = True
+    # (c) the name is the first whitespace-delimited token of the remainder (words after it are commentary, as in Babel's /@jsx\s+([^\s]+)/)
+    if where is not None:
+        first_tok = False
+        for m in _chain_after(ps["body"], where):
+            for x in walk(m):
+                if x.get("k") == "MethodCall" and x["method"] == "next" and strip_transparent(x["recv"]).get("k") == "MethodCall" \
+                        and strip_transparent(x["recv"])["method"] in ("split_whitespace", "split_ascii_whitespace", "split"):
+                    first_tok = True
+                if x.get("k") == "MethodCall" and x["method"] == "split_once":
+                    first_tok = True
+        r.ob("the pragma is the first whitespace-delimited token after `@jsx`", first_tok, C.mloc(ps, where),
+             "split_whitespace().next()" if first_tok else "the whole remainder of the comment is taken: `@jsx h -- note` is then not an identifier and the annotation is ignored")
     if where is None:
         r.ob("`@jsx` prefix match is followed by a delimiter test", None, C.mloc(ps, ps), "no strip_prefix(\"@jsx\") found (different matching strategy: not decided)")
     else:
